@@ -209,6 +209,11 @@ fn run_op(store: &AnnotationStore, op: ROp) -> String {
 }
 
 thread_local! {
+    /// name the stand-off members of the next store with file:// URLs (absolute) instead of relative names
+    static FILE_URLS: std::cell::Cell<bool> = std::cell::Cell::new(false);
+}
+
+thread_local! {
     /// build the next stand-off store with Config::with_use_include(false): members are written inline although they have files
     static USE_INCLUDE_OFF: std::cell::Cell<bool> = std::cell::Cell::new(false);
 }
@@ -238,12 +243,14 @@ fn build_store_full(dir: &str, standoff: bool, changed: bool, json_resources: bo
     let rh: Vec<TextResourceHandle> = store.resources().map(|r| r.handle()).collect();
     for (i, h) in rh.iter().enumerate() {
         let r: &mut TextResource = store.get_mut(*h).unwrap();
-        r.set_filename(&format!("res{}.{}", i, if json_resources && i == 0 { "resource.stam.json" } else { "txt" }));
+        let name = format!("res{}.{}", i, if json_resources && i == 0 { "resource.stam.json" } else { "txt" });
+        r.set_filename(&if FILE_URLS.with(|f| f.get()) { format!("file://{}/{}", dir, name) } else { name });
     }
     let sh: Vec<AnnotationDataSetHandle> = store.datasets().map(|s| s.handle()).collect();
     for (i, h) in sh.iter().enumerate() {
         let s: &mut AnnotationDataSet = store.get_mut(*h).unwrap();
-        s.set_filename(&format!("set{}.annotationset.stam.json", i));
+        let name = format!("set{}.annotationset.stam.json", i);
+        s.set_filename(&if FILE_URLS.with(|f| f.get()) { format!("file://{}/{}", dir, name) } else { name });
     }
     let path = format!("{}/c20.store.stam.json", dir);
     store.to_file(&path).expect("write");
@@ -392,17 +399,19 @@ fn disk_effects(rep: &mut Report, dir: &str, kind: &str, ops: &[ROp], all_change
         }
         (store, d)
     };
+    // (file names inside the files may carry the directory: it is taken out before comparing)
+    let content = |d: &str| -> std::collections::BTreeMap<String, String> { dir_content(d).into_iter().map(|(k, v)| (k, v.replace(d, "<dir>"))).collect() };
     let (s0, d0) = fresh("d0");
-    let init = dir_content(&d0);
+    let init = content(&d0);
     let _ = run_op(&s0, ops[0]);
-    let c0 = dir_content(&d0);
+    let c0 = content(&d0);
     let (s1, d1) = fresh("d1");
     let _ = run_op(&s1, ops[1]);
-    let c1 = dir_content(&d1);
+    let c1 = content(&d1);
     let (s01, d01) = fresh("d01");
     let _ = run_op(&s01, ops[0]);
     let _ = run_op(&s01, ops[1]);
-    let c01 = dir_content(&d01);
+    let c01 = content(&d01);
     rep.eval();
     rep.distinct(&format!("disk-effects/{}/{:?}", kind, ops));
     let names: std::collections::BTreeSet<&String> = init.keys().chain(c0.keys()).chain(c1.keys()).chain(c01.keys()).collect();
@@ -486,7 +495,7 @@ pub fn run(p: &Params, rep: &mut Report) {
     let budget_pairs: usize = if p.thorough { 600 } else { 60 };
     let sampled: usize = if p.thorough { 300 } else { 30 };
     let stress_rounds: usize = if p.thorough { 2000 } else { 150 };
-    let storekinds = [("inline", false, false), ("standoff-unchanged", true, false), ("standoff-changed", true, true), ("standoff-json-resource", true, false), ("standoff-use-include-off", true, false)];
+    let storekinds = [("inline", false, false), ("standoff-unchanged", true, false), ("standoff-changed", true, true), ("standoff-json-resource", true, false), ("standoff-use-include-off", true, false), ("standoff-file-urls-changed", true, true)];
     // the work is split over shards by (store kind, operation pair)
     let mut jobs: Vec<(usize, Vec<ROp>)> = Vec::new();
     for sk in 0..storekinds.len() {
@@ -510,17 +519,36 @@ pub fn run(p: &Params, rep: &mut Report) {
         rep.current_case = json!({"index": ji, "seed": p.seed, "tier": if p.thorough { "thorough" } else { "quick" }});
         let (kind, standoff, changed) = storekinds[*sk];
         let dir = format!("{}/c20-{}-{}", p.workdir, p.shard, ji);
+        USE_INCLUDE_OFF.with(|f| f.set(kind == "standoff-use-include-off"));
+        FILE_URLS.with(|f| f.set(kind == "standoff-file-urls-changed"));
+        // building these stores is a fixed sequence of valid calls (annotate, set_filename, to_file, from_file): it always succeeds on
+        // the pinned tree, so a failure in there is reported, not swallowed
+        let setup = guard(|| build_store_kind(&dir, standoff, changed, kind == "standoff-json-resource"));
+        let store = match setup {
+            Ok(s) => s,
+            Err(pn) => {
+                rep.violation(format!("C20/{}/store-cannot-be-set-up/{}", kind, normalise_msg(&pn.msg.chars().take(60).collect::<String>())), json!({"store": kind, "panic": pn.msg, "at": pn.loc}));
+                USE_INCLUDE_OFF.with(|f| f.set(false));
+                FILE_URLS.with(|f| f.set(false));
+                let _ = std::fs::remove_dir_all(&dir);
+                continue;
+            }
+        };
         if changed {
             for all_changed in [false, true] {
-                disk_effects(rep, &dir, kind, ops, all_changed);
-                if ops[0] != ops[1] {
-                    disk_effects(rep, &dir, kind, &[ops[1], ops[0]], all_changed);
+                let r = guard(|| {
+                    disk_effects(rep, &dir, kind, ops, all_changed);
+                    if ops[0] != ops[1] {
+                        disk_effects(rep, &dir, kind, &[ops[1], ops[0]], all_changed);
+                    }
+                });
+                if let Err(pn) = r {
+                    rep.violation(format!("C20/{}/store-cannot-be-set-up/{}", kind, normalise_msg(&pn.msg.chars().take(60).collect::<String>())), json!({"store": kind, "panic": pn.msg, "at": pn.loc}));
                 }
             }
         }
-        USE_INCLUDE_OFF.with(|f| f.set(kind == "standoff-use-include-off"));
-        let store = build_store_kind(&dir, standoff, changed, kind == "standoff-json-resource");
         USE_INCLUDE_OFF.with(|f| f.set(false));
+        FILE_URLS.with(|f| f.set(false));
         let base: Vec<String> = ops.iter().map(|o| run_op(&store, *o)).collect();
         let dump_before = dump_of(&store);
         let files_before = dir_state(&dir);
